@@ -729,6 +729,9 @@ async fn drive_inner(shared: Shared, sc: &Scenario, timed: &mut TimedOps) -> Pro
         w.inc_start = Some(tokio::time::Instant::now());
         w.kill_notify = Arc::new(tokio::sync::Notify::new());
         w.polls = 0;
+        w.in_write = false;
+        w.first_write_begun = false;
+        w.writes_this_incarnation = 0;
         w.killed = false;
         w.kill_at_end_of_poll = false;
         w.handed_this_incarnation.clear();
@@ -917,6 +920,7 @@ pub(crate) struct RunResult {
     pub stats: super::common::Stats,
     pub trace: super::common::Trace,
     pub polls_inc0: u32,
+    pub writes_inc0: u32,
 }
 
 /// Executes one scenario once (no enumeration), optionally with one additional kill.
@@ -964,6 +968,7 @@ pub(crate) fn run_once(sc: &Scenario, extra_kill: Option<KillAt>) -> RunResult {
     timed.shutdowns.sort_by_key(|a| a.0);
 
     let mut polls_inc0 = 0;
+    let mut writes_inc0 = 0;
     let mut incarnations = 0u32;
     let mut crash_loops = 0u32;
     loop {
@@ -980,6 +985,7 @@ pub(crate) fn run_once(sc: &Scenario, extra_kill: Option<KillAt>) -> RunResult {
             w.incoming.clear();
             if w.incarnation == 0 {
                 polls_inc0 = w.polls;
+                writes_inc0 = w.writes_this_incarnation;
             }
         }
         drop(rt);
@@ -1110,7 +1116,12 @@ pub(crate) fn run_once(sc: &Scenario, extra_kill: Option<KillAt>) -> RunResult {
         w.check_exactly_once();
     }
     // expected terminal outcome for an oversized block: the error path, and only then
-    let oversized_handed = sc.cfg.blocks.oversized.iter().any(|h| w.handed.contains(h));
+    let oversized_handed = sc
+        .cfg
+        .blocks
+        .oversized
+        .iter()
+        .any(|h| w.handed.contains(h) && blocks::oversized_effective(&sc.cfg.blocks, &sc.cfg.filter, *h));
     if oversized_handed != w.oversized_exit && !sc.cfg.kills {
         let step = w.step;
         w.viol.push(
@@ -1158,6 +1169,7 @@ pub(crate) fn run_once(sc: &Scenario, extra_kill: Option<KillAt>) -> RunResult {
         stats,
         trace,
         polls_inc0,
+        writes_inc0,
     }
 }
 
@@ -1177,19 +1189,38 @@ pub(crate) fn run(sc: &Scenario) -> Outcome {
     let mut trace = dry.trace;
     let mut stats = dry.stats;
     let mut viol = dry.violations;
-    let ks: Vec<u32> = match sc.cfg.enum_only_k {
-        Some(k) => vec![k],
-        None => (1..=n).collect(),
+    // the enumerated crash points of incarnation 0: every counted suspension of the root future,
+    // plus the three points of every `State::write` and two torn variants of each write
+    let mut points: Vec<KillAt> = (1..=n)
+        .map(|k| KillAt::Poll {
+            inc: 0,
+            k,
+        })
+        .collect();
+    for nth in 1..=dry.writes_inc0.min(40) {
+        for point in 0..3u8 {
+            points.push(KillAt::Write {
+                nth,
+                point,
+                torn_permille: None,
+            });
+        }
+        for permille in [0u16, 500] {
+            points.push(KillAt::Write {
+                nth,
+                point: 1,
+                torn_permille: Some(permille),
+            });
+        }
+    }
+    let selected: Vec<(usize, KillAt)> = match sc.cfg.enum_only_k {
+        Some(k) => points.into_iter().enumerate().filter(|(i, _)| *i + 1 == k as usize).collect(),
+        None => points.into_iter().enumerate().collect(),
     };
-    stats.probe_n("enum_kill_indices", ks.len() as u64);
-    for k in ks {
-        let r = run_once(
-            sc,
-            Some(KillAt::Poll {
-                inc: 0,
-                k,
-            }),
-        );
+    stats.probe_n("enum_kill_points", selected.len() as u64);
+    for (i, when) in selected {
+        let k = i + 1;
+        let r = run_once(sc, Some(when.clone()));
         trace.ev(&format!("enum k={k} hash={:x}", r.stats.log_hash));
         trace.abs(&format!("k{k}:{:x}", r.stats.run_sig));
         if trace.keep && !r.violations.list.is_empty() {
@@ -1201,7 +1232,7 @@ pub(crate) fn run(sc: &Scenario) -> Outcome {
                 &v.oracle,
                 &v.signature,
                 v.step,
-                format!("[enumerated kill at suspension {k} of incarnation 0] {}", v.message),
+                format!("[enumerated crash point {k} of incarnation 0: {when:?}] {}", v.message),
             );
         }
         for (name, c) in r.stats.faults {
